@@ -22,3 +22,14 @@
         pub open spec fn labels_unmoved(before: &std::collections::HashMap<String, expr::Value>, now: &std::collections::HashMap<String, expr::Value>) -> bool {
             forall|k: Seq<char>| (#[trigger] label_lookup(before, k)) is Some ==> label_lookup(now, k) is Some && (label_lookup(now, k) == label_lookup(before, k) || expr::value_eq(label_lookup(now, k)->0, label_lookup(before, k)->0))
         }
+        // ---- the value of a block (C17): the encodings of its instructions joined in order, the first one on top
+        pub open spec fn joined_size(p: Seq<util::BigInt>) -> int decreases p.len() {
+            if p.len() == 0 { 0 } else { joined_size(p.subrange(0, p.len() - 1)) + (p[p.len() - 1].size->0) as int }
+        }
+        /// bit j of the pieces joined: the last piece occupies the lowest bits
+        pub open spec fn joined_bit(p: Seq<util::BigInt>, j: int) -> bool decreases p.len() {
+            if p.len() == 0 || j < 0 { false } else {
+                let last = p[p.len() - 1];
+                if j < (last.size->0) as int { bit_of(last.val(), j as nat) } else { joined_bit(p.subrange(0, p.len() - 1), j - (last.size->0) as int) }
+            }
+        }
